@@ -340,8 +340,8 @@ def r163(ctx, fx, rid_prefix="R16.3"):
 def r164(ctx, fx):
     rid = ctx.rule("R16.4", "references and highlights are one set: FindReferencesHandler and DocumentHighlightRequestHandler select the definitions at the position the "
                    "same way — Analysis::find_filter with a filter on DefinitionType::Symbol (an imported file is a definition that contains every position of "
-                   "the file, but not a symbol) — and both answer every place once (`unique` over the spans: what a macro defines exists once per invocation, at "
-                   "the same place)")
+                   "the file, but not a symbol) — both keep only the definitions written at the same place as the narrowest match (the one go-to-definition leads to), and both answer "
+                   "every place once (`unique` over the spans: what a macro defines exists once per invocation, at the same place)")
     hs = {}
     for f in fx.all_fns("mos"):
         if f.d.get("impl_trait") == "mos::lsp::traits::RequestHandler" and f.path.endswith("::handle") and f.d.get("hir"):
@@ -360,8 +360,33 @@ def r164(ctx, fx):
             symbol_only = any("DefinitionType::Symbol" in json.dumps(x) for x in ff)
         once = any(x.get("k") == "mcall" and x.get("name") in ("unique", "unique_by", "dedup", "dedup_by_key", "dedup_by") for x in lib.hwalk(body)) or \
             any("BTreeSet" in str(x.get("ty", "")) or "HashSet" in str(x.get("ty", "")) for x in lib.hwalk(body))
+        # every definition written at the place counts (one per import of the file, per macro invocation, per loop iteration): the handler, or the helper of the
+        # analysis it asks, does not pick one of them
+        bodies = [body]
+        for x, p_ in lib.hir_calls(body):
+            if p_ and p_.startswith("mos_core::codegen::analysis::Analysis::") and not p_.endswith(("::find_filter", "::look_up", "::find")):
+                g = fx.fn(p_)
+                if g is not None and g.d.get("hir"):
+                    bodies.append(g.hir["body"])
+                    if not symbol_only and any(True for _ in lib.hir_calls(g.hir["body"], "Analysis::find_filter")):
+                        symbol_only = "DefinitionType::Symbol" in json.dumps(body)
+        # … unless it takes the narrowest one (the one go-to-definition leads to) and goes on with all symbols written at the same place
+        picks = [x.get("name") for bd in bodies for x in lib.hwalk(bd) if x.get("k") == "mcall" and x.get("name") in ("first", "next", "nth", "last", "pop", "swap_remove") and
+                 any(True for _ in lib.hir_calls(x["recv"], "Analysis::find_filter")) and not any(True for _ in lib.hir_calls(bd, "Analysis::symbols_written_at"))]
+        if not symbol_only:
+            symbol_only = any("DefinitionType::Symbol" in json.dumps(bd) and any(True for _ in lib.hir_calls(bd, "Analysis::find_filter")) for bd in bodies)
+        # only what is written at the same place as the narrowest match belongs to the answer (a `.test "t_{foo}"` contains the position of `foo` too)
+        same_place = any(n_.get("k") == "binary" and n_.get("op") in ("Eq", "Ne") and "location" in repr(lib.hdesc(n_)) for bd in bodies for n_ in lib.hwalk(bd))
         k = "%s|selection" % who
-        ctx.inst(rid, k, sample={"handler": who, "find_filter_on_symbols": symbol_only, "each_place_once": once})
+        ctx.inst(rid, k, sample={"handler": who, "find_filter_on_symbols": symbol_only, "each_place_once": once, "picks_one_definition": picks,
+                                 "restricted_to_the_place_of_the_narrowest": same_place})
+        if not same_place:
+            ctx.finding(rid, k + "|same-place", "%s answers with the occurrences of every symbol whose definition or usage contains the position: inside `.test \"t_{foo}\"` "
+                        "that is `foo` *and* the test, whose span is then reported as an occurrence of `foo` — go-to-definition leads to `foo` alone" % who, f.where)
+        if picks:
+            ctx.finding(rid, k + "|all-definitions", "%s looks at one of the definitions found at the position only (`%s`): a file that is assembled more than once has one "
+                        "copy of its symbols per import, all written at the same place, and the occurrences that reach the symbol through the other imports are "
+                        "missing from the answer" % (who, picks[0]), f.where)
         if not symbol_only:
             ctx.finding(rid, k, "%s takes every definition that contains the position: in an imported file that includes the file itself, whose `usages` are the import "
                         "statements and whose range is the whole file — the answer is no longer the set of occurrences of the symbol" % who, f.where)
